@@ -25,7 +25,7 @@ ShapeOK(ins, outs, kinds) ==
                            Get(outs[i], "steps").e, kinds[i].kids)
           /\ kinds[i].k = "unknown" => EqOrd(outs[i], ins[i])               \* kept verbatim
 EventOK(e) ==
-    /\ ~e.panic /\ ~e.timeout                                               \* never panics, returns in bounded time
+    /\ ~e.panic /\ ~e.timeout /\ ~e.crash                                   \* never panics (or dies), returns in bounded time
     /\ e.outcome # "hard" =>
           /\ e.jsonok /\ e.yamlok                                           \* marshalling the usable result succeeds
           /\ e.stepsislist                                                  \* the step list is non-nil
